@@ -143,7 +143,19 @@ def run(case, rec):
     if kind == "knn":
         k, red = case["k"], case["red"]
         data = np.array([2.0 ** i for i in range(npts)])
-        est = vd.KNeighbors(k=k, reduction=getattr(np, red))
+        # the route by which k and the reduction reach the estimator rotates with the case
+        route = ("ctor", "set_params", "attribute", "clone")[(len(case["sub"]) + k + sum(case["sub"])) % 4]
+        if route == "ctor":
+            est = vd.KNeighbors(k=k, reduction=getattr(np, red))
+        elif route == "clone":
+            from sklearn.base import clone
+            est = clone(vd.KNeighbors(k=k, reduction=getattr(np, red)))
+        else:
+            est = vd.KNeighbors(k=k + 2, reduction=np.min if red != "min" else np.max)
+            if route == "set_params":
+                est.set_params(k=k, reduction=getattr(np, red))
+            else:
+                est.k, est.reduction = k, getattr(np, red)
         e_fit, n_fit, d_fit = e.copy(), n.copy(), data.copy()
         if raised(call(rec, est.fit, (e_fit, n_fit), d_fit)):
             return rec.check(False, "KNeighbors.fit raised")
